@@ -67,7 +67,10 @@ def gen(cls, idx, rng, tier):
     elif cls == "full_frac":
         nf = top
     elif cls == "over_frac":
-        nf = nb + rng.randint(0, 4)
+        # "any number of fractional bits": a little, and far, more than the
+        # format is wide
+        nf = nb + rng.choice([rng.randint(0, 4), rng.randint(5, 40),
+                              rng.randint(41, 300)])
     lo, hi = ((-(1 << (nb - 1)), (1 << (nb - 1)) - 1) if signed
               else (0, (1 << nb) - 1))
     step = 2.0 ** -nf
@@ -167,8 +170,12 @@ def run(case, ctx):
             warnings.simplefilter("ignore")
             again = [("reversed view", flat[::-1], exact[::-1]),
                      ("every other element", flat[::2], exact[::2])]
+            # single-precision input is scaled in single precision: only
+            # values whose scaled value is the same finite number there
+            sc32 = np.float32(2.0 ** nf) if nf < 120 else None
             f32 = [(v, e) for v, e in zip(vals, exact)
-                   if float(np.float32(v)) == v]
+                   if sc32 is not None and float(np.float32(v)) == v and
+                   float(np.float32(v) * sc32) == v * 2.0 ** nf]
             if f32:
                 again.append(("float32 array", np.array(
                     [v for v, _ in f32], dtype=np.float32),
